@@ -377,8 +377,26 @@ def r4_use_syntax(ctx, rep):
     rep.ob("RENAME_RE does not fire on a plain name", w is None, "" if w is None else f"`{w}`", py.nloc(rnode), witness=w)
     # USE arm records both groups
     a = ctx.cascade.arm_by_regex("USE_RE")
-    ok = "self.uses.append(list(match.groups()))" in ast.unparse(ast.Module(body=a.body, type_ignores=[]))
+    def both_groups(x: ast.AST) -> bool:
+        alts = astq.expand_locals(x, ctx.cascade.fn)
+        return any(any(isinstance(c, ast.Call) and isinstance(c.func, ast.Attribute) and c.func.attr == "groups" for c in ast.walk(e))
+                   or len({ast.unparse(c) for c in ast.walk(e) if isinstance(c, ast.Call) and isinstance(c.func, ast.Attribute)
+                           and c.func.attr == "group"}) >= 2 for e in alts)
+    ok = any(isinstance(c, ast.Call) and isinstance(c.func, ast.Attribute) and c.func.attr == "append" and
+             ast.unparse(c.func.value) == "self.uses" and c.args and both_groups(c.args[0])
+             for st in a.body for c in ast.walk(st))
     rep.ob("USE arm records (module name, tail)", ok, "", py.nloc(a.test))
+    # one record per USE statement: the record is appended on every path on which the container accepts USE at all
+    # (several USE statements of one module are combined later, by get_used_entities, not by editing earlier records)
+    apps = [e for e in astq.trace_block(a.body, ctx.cascade.fn) if e.kind == "call" and isinstance(e.node.func, ast.Attribute)
+            and e.node.func.attr == "append" and ast.unparse(e.node.func.value) == "self.uses"]
+    if not apps:
+        raise AnalysisError("USE arm: no append to self.uses")
+    extra = [c for e in apps for c in e.cond_texts() if "hasattr(" not in c] + ["inside a loop" for e in apps if e.loops]
+    rep.ob("every USE statement gets a record of its own", not extra,
+           "appended unconditionally (given the container has a `uses` list)" if not extra else
+           f"the record is only appended under {extra[:2]}: a later USE of the same module is folded into an earlier one, so "
+           f"`use m, only: a` followed by `use m` imports only `a`", py.nloc(apps[0].node))
 
 
 
